@@ -21,6 +21,16 @@ CHECKS = {
             'Trusted: the rst table parser in drivers/c08.py; the sampled 4x4 start planes standing for "a compatible '
             'wavefront". Rotate and Flip are recorded known findings.',
             'TLA+ state machine from the documentation tables, TLC-generated programs replayed into lentil'),
+    'C01': ('model_checking',
+            'DFT.tla states the transform as its defining double sum in exact cyclotomic arithmetic Z[zeta_N] (Cyclo.tla, '
+            'Phi_N verified by TLC). On flagged cases TLC proves ring identities: matrix triple product = double sum, input '
+            'offset = embedding, inverse o forward = id under both flags incl. scalar bookkeeping, Parseval. For every case TLC '
+            'emits the exact value of every output sample; lentil.fourier.dft2/idft2 are called through the public signature '
+            '(independent row/column alpha, quarter-pixel shifts, offsets of either sign, both flags, out=) and compared.',
+            'DESIGN.md 5 C01',
+            'Trusted: conversion of a ring element to complex128 (float64 roots of unity) and sqrt of the rational norm tag; '
+            'tolerance 1e-9*(1+sum|f|). Inverse is checked on full-period geometries only (the statement says no more).',
+            'exact Z[zeta_N] evaluation of the defining sum by TLC as oracle; ring theorems model-checked'),
     'C06': ('model_checking',
             'FieldAlg.tla defines multiply / merge / reduce / insert and the extent queries on the embedding of a field in '
             'Z^2 (pixel sets, pointwise Gaussian-integer arithmetic). TLC checks the rectangle calculus against pixel sets '
